@@ -461,9 +461,16 @@ class _StructAggregate:
 def _inv_struct_aggregate(s):
     ft = s.field_types
     # after i iterations over field_types[1:], the first i+1 fields are folded
-    return {"prefix-folded": SETEQ(D(s.bls), SymSet(st.sfold_f(st.lmap_f(ft.arr), st.amap_f(ft.arr), s.i + 1))),
-            "unfold-next": st.sfold_unfold(st.lmap_f(ft.arr), st.amap_f(ft.arr), s.i + 1),
-            "unfold-first": st.sfold_unfold(st.lmap_f(ft.arr), st.amap_f(ft.arr), z3.IntVal(0))}
+    return {"prefix-folded": SETEQ(D(s.bls), SymSet(st.sfold_f(st.lmap_f(ft.arr), st.amap_f(ft.arr), s.i + 1)))}
+
+
+def _struct_aggregate_triggers(s):
+    ft = s.field_types
+    F, M = st.lmap_f(ft.arr), st.amap_f(ft.arr)
+    return [st.sfold_unfold(F, M, s.i + 1), st.sfold_unfold(F, M, s.i), st.sfold_unfold(F, M, 0)]
+
+
+_inv_struct_aggregate.triggers = _struct_aggregate_triggers
 
 
 @contract(UNION + "._compute_tag_bit_length", props=P + ["C16"])
